@@ -77,7 +77,7 @@ import c20_refs as refs  # noqa: E402
 THREADS = (1, 2, 4)
 TMPROOT = os.path.join(VERIF, "build", "tmp", "c20")
 REPLAYS = os.path.join(VERIF, "replays")
-RUN_TIMEOUT = {"quick": 20, "thorough": 60}  # seconds per app process; no
+RUN_TIMEOUT = {"quick": 15, "thorough": 60}  # seconds per app process; no
 #                         exit within it is the verdict "hang" (normal runs
 #                         take 0.02-3 s even on an overloaded machine)
 HANG_LIMIT = 2          # after this many hangs the rest of the case is skipped
@@ -304,7 +304,7 @@ class DistApp(App):
         gs = []
         if tier == "quick":
             gs += D(1) + D(2) + D(3, k3) + stride(D(1, 1, True) +
-                                                  D(2, 1, True), 3)
+                                                  D(2, 1, True), 5)
             gs += S(["dpath64", "grid4x8", "dheavytail64", "loops6",
                      "clique5+path6+2iso", "star601"])
         else:
@@ -338,7 +338,7 @@ class Bfs(DistApp):
                 for a in ("SyncTile", "Sync", "AsyncTile", "Async")]
 
     def inputs(self, tier):
-        return self._inputs(tier, 5, 29, 13)
+        return self._inputs(tier, 7, 29, 13)
 
 
 class Sssp(DistApp):
@@ -363,10 +363,10 @@ class Sssp(DistApp):
 
     def inputs(self, tier):
         if tier == "quick":
-            gs = D(1) + D(2) + D(3, 7)
+            gs = D(1) + D(2) + D(3, 11)
             gs += S(["shortcut21", "grid4x8", "dheavytail64", "star601"])
             return [Input(g, src=0) for g in gs] + \
-                [Input(g, src=2) for g in D(3, 11)]
+                [Input(g, src=2) for g in D(3, 23)]
         return self._inputs(tier, 7, 37, 31)
 
 
@@ -388,7 +388,7 @@ class CC(App):
 
     def inputs(self, tier):
         if tier == "quick":
-            gs = U(1) + U(2) + U(3) + U(4, 7) + stride(U(2, 1, True), 3)
+            gs = U(1) + U(2) + U(3) + U(4, 11) + stride(U(2, 1, True), 3)
             gs += S(["clique5+path6+2iso", "grid4x8", "heavytail64",
                      "star601"], False)
         else:
@@ -447,11 +447,11 @@ class Mst(App):
 
     def inputs(self, tier):
         if tier == "quick":
-            sym = U(2) + U(3) + U(4) + S(
+            sym = U(2) + U(3) + U(4, 3) + S(
                 ["barbell6", "grid4x8", "heavytail64", "clique5+path6+2iso",
                  "clique16", "star601"], False)
-            dr = D(2) + D(3) + S(["dag10", "dheavytail64", "dgrid6x6",
-                                  "loops6"])
+            dr = D(2) + D(3, 3) + S(["dag10", "dheavytail64", "dgrid6x6",
+                                     "loops6"])
         else:
             sym = U(2) + U(3) + U(4) + U(5, 3) + S(None, False)
             sym += stride(U(2, 1, True) + U(3, 1, True), 5)
@@ -515,7 +515,7 @@ class Tri(App):
     def inputs(self, tier):
         return [Input(g) for g in simple_sym(
             tier, ["barbell6", "clique16", "heavytail64", "grid4x8",
-                   "star601"], 3, 5)]
+                   "star601"], 5, 5)]
 
     def argv(self, path, inp, var, t, j):
         return [path, "-symmetricGraph"] + var.args + ["-t=%d" % t]
@@ -551,7 +551,7 @@ class KCore(App):
         if tier == "quick":
             for g in U(1) + U(2) + U(3):
                 out += [Input(g, k=1), Input(g, k=2)]
-            out += [Input(g, k=2) for g in U(4)]
+            out += [Input(g, k=2) for g in U(4, 3)]
             out += [Input(g, k=3) for g in U(4, 5)]
             for g in S(["barbell6", "heavytail64", "grid4x8", "star601"],
                        False):
@@ -619,7 +619,7 @@ class PageRank(App):
 
     def inputs(self, tier):
         if tier == "quick":
-            gs = D(1) + D(2) + D(3, 3) + stride(D(1, 1, True) +
+            gs = D(1) + D(2) + D(3, 5) + stride(D(1, 1, True) +
                                                 D(2, 1, True), 3)
             gs += S(["dag10", "dheavytail64", "grid4x8", "star601"])
         else:
@@ -771,7 +771,7 @@ class Mis(App):
     def inputs(self, tier):
         return [Input(g) for g in simple_sym(
             tier, ["barbell6", "K4,5", "heavytail64", "grid4x8", "star601"],
-            3, 5)]
+            5, 5)]
 
     def argv(self, path, inp, var, t, j):
         return [path, "-symmetricGraph"] + var.args + ["-t=%d" % t]
@@ -879,19 +879,21 @@ class Pfp(App):
         out = []
         dflt = ("nondet",)
         if tier == "quick":
-            gs = D(2) + D(3, 3) + U(3)
-            more = D(4, 31)           # default variant only, sink = node 0
+            gs = D(2) + D(3, 5) + U(3)
+            more = D(4, 61)           # default variant only, sink = node 0
             big = S(["dag10", "layers4x8", "dgrid6x6", "grid3x3"])
         else:
             gs = D(2) + D(3) + D(4, 29) + U(3) + U(4) + \
                 stride(D(2, 1, True) + D(3, 1, True), 31)
             more = D(4, 7)
             big = [g for g in S() if g.n <= 64 and g.m >= 1]
-        for g in gs:
-            out.append(Input(g, s=0, t=g.n - 1))
-            out.append(Input(g, s=g.n - 1, t=0))
+        # first, so that a deadline cuts this (longest) case at its tail
         for g in more:
             out.append(Input(g, s=g.n - 1, t=0, _only=dflt))
+        for g in gs:
+            out.append(Input(g, s=0, t=g.n - 1))
+            if tier != "quick" or g.name[0] == "d":
+                out.append(Input(g, s=g.n - 1, t=0))
         for g in big:
             out.append(Input(g, s=0, t=g.n - 1))
             if g.n >= 4:
@@ -1371,6 +1373,9 @@ def build_apps():
 
 def do_replay(path, repeat):
     doc = json.load(open(path))
+    hang = str(doc.get("key", "")).endswith(":hang")
+    if repeat <= 0:
+        repeat = 1 if hang else 3
     res = build_apps()
     app = [a for a in APPS if a.name == doc["app"]][0]
     var = [v for v in app.variants() if v.name == doc["variant"]][0]
@@ -1383,7 +1388,7 @@ def do_replay(path, repeat):
     os.makedirs(os.path.join(wd, app.name), exist_ok=True)
     rc = 0
     try:
-        runner = Runner(res["bins"], wd, pick_lanes(1), 60)
+        runner = Runner(res["bins"], wd, pick_lanes(1), 30 if hang else 120)
         p = runner.graph_path(app, inp)
         cg.write_gr(app.file_graph(inp), p, app.edge_size)
         print("key      :", doc.get("key"))
@@ -1416,7 +1421,7 @@ def do_replay(path, repeat):
 
 def main():
     a = sys.argv[1:]
-    opt = dict(tier="quick", out=None, deadline=None, replay=None, repeat=3,
+    opt = dict(tier="quick", out=None, deadline=None, replay=None, repeat=0,
                app=None, case=None, lanes=3, keep=False, list=False)
     i = 0
     while i < len(a):
@@ -1499,7 +1504,8 @@ def main():
     # the deadline covers the whole part; a cold build eats into it, but the
     # runs always get at least half of it
     spent = t_built - t0
-    budget = max(deadline * 0.5, deadline - spent) - 12.0
+    # 12% (at least 25 s) is kept back for re-running failing inputs
+    budget = max(deadline * 0.5, deadline - spent) - max(25.0, 0.12 * deadline)
     deadline_at = time.time() + max(20.0, budget)
     stopped = run_all(runner, cases, deadline_at)
     viol = confirm_failures(runner, cases)
